@@ -108,7 +108,9 @@ where
         if self.options.resolve_type {
             let key = (interface.id.sym.clone(), interface.id.ctxt);
             if let Some(merged) = self.interfaces.get_mut(&key) {
+                // every declaration of a merged interface contributes its members and its parents
                 merged.body.body.extend_from_slice(&interface.body.body);
+                merged.extends.extend_from_slice(&interface.extends);
             } else {
                 self.interfaces.insert(key, interface.clone());
             }
